@@ -233,6 +233,48 @@ theorem rawQ_offer_monotone (p : Nat) (ws : Array Nat) (h : Nat) (hp : PrecOK p)
   have := rawQ_monotone_regs p _ _ (regs_offer_le p ws h hp hw hh) (regs_ne_nil p _)
   exact ⟨this.1, this.2.2⟩
 
+/-- the small-range test is a threshold on the register sum: `raw ≤ 5/2·m` iff
+    `alpha_p · m · 2^32 ≤ 5 · S` (so it is decided by integer data and the constants alone) -/
+theorem small_iff_regsum (ln : Rat → Rat) (p S : Nat) (hS : 0 < S) :
+    (specEst ln).small (rawQ p S) (2 ^ p) = true ↔ alphaQ p * mQ p * 4294967296 ≤ 5 * (S : Rat) := by
+  show decide (rawQ p S ≤ decQ consts.thresholdNum / decQ consts.thresholdDen * ((2 ^ p : Nat) : Rat)) = true ↔ _
+  rw [decide_eq_true_eq]
+  have ht : decQ consts.thresholdNum / decQ consts.thresholdDen = 5 / 2 := by decide +kernel
+  rw [ht]
+  have hm := mQ_pos p
+  have hs : (0 : Rat) < (S : Rat) / 2147483648 := rat_div_pos (Rat.natCast_pos.mpr hS) (by decide +kernel)
+  unfold rawQ
+  show alphaQ p * mQ p * mQ p / ((S : Rat) / 2147483648) ≤ 5 / 2 * mQ p ↔ _
+  have key : alphaQ p * mQ p * mQ p / ((S : Rat) / 2147483648) * ((S : Rat) / 2147483648) =
+      alphaQ p * mQ p * mQ p := Rat.div_mul_cancel (Rat.ne_of_gt hs)
+  constructor
+  · intro h
+    have h1 := Rat.mul_le_mul_of_nonneg_right h (Rat.le_of_lt hs)
+    rw [key] at h1
+    -- α m m ≤ 5/2 m (S/2^31)  ⇒  α m 2^32 ≤ 5 S   (divide by m, multiply by 2^32)
+    have h2 : alphaQ p * mQ p * mQ p = (alphaQ p * mQ p) * mQ p := rfl
+    have h3 : 5 / 2 * mQ p * ((S : Rat) / 2147483648) = (5 / 2 * ((S : Rat) / 2147483648)) * mQ p := by grind
+    rw [h3] at h1
+    have h4 := Rat.le_of_mul_le_mul_right h1 hm
+    have h5 : (S : Rat) / 2147483648 * 2147483648 = S := Rat.div_mul_cancel (by decide +kernel)
+    grind
+  · intro h
+    apply Rat.le_of_mul_le_mul_right (c := (S : Rat) / 2147483648) _ hs
+    rw [key]
+    have h5 : (S : Rat) / 2147483648 * 2147483648 = S := Rat.div_mul_cancel (by decide +kernel)
+    have h6 : alphaQ p * mQ p * 2 ≤ 5 * ((S : Rat) / 2147483648) := by grind
+    have h7 := Rat.mul_le_mul_of_nonneg_right h6 (Rat.le_of_lt hm)
+    grind
+
+/-- once the raw estimate has left the small range it never returns: the test is monotone in
+    the register sum, which offers only decrease -/
+theorem small_antitone (ln : Rat → Rat) (p S S' : Nat) (h0 : 0 < S') (h : S' ≤ S)
+    (hs : (specEst ln).small (rawQ p S') (2 ^ p) = true) : (specEst ln).small (rawQ p S) (2 ^ p) = true := by
+  rw [small_iff_regsum ln p S (by omega)]
+  have := (small_iff_regsum ln p S' h0).mp hs
+  have hle : (S' : Rat) ≤ (S : Rat) := Rat.natCast_le_natCast.mpr h
+  grind
+
 /-! ### small sets -/
 
 theorem regs_fresh (p : Nat) : regs p (fresh p) = List.replicate (2 ^ p) 0 := by
